@@ -434,16 +434,22 @@ def shrink(case):
 
 
 MANIFEST = dict(
-    text=('Proof (Coq): the whole request-body pipeline (BodyMixin._body, _get_body_string, json, POST/forms/files, '
-          'BaseRequest._raise with DefaultConfig.errors_map, FieldStorage, the streaming multipart parser) is one total '
-          'function coq/model/BodyPipeline.v:process in which every raising Python operation is a ServerFault constructor '
-          'unless the code routes it through _raise; theorems in coq/props/C12.v state that no ServerFault is produced. The '
-          'model is tied to /repo on every run by a differential correspondence through Ombott.__call__ on a malformed-body '
-          'stream (status, delivered values) and an independent oracle (no 5xx, no traceback on wsgi.errors, no hang, '
-          'delivered fields are complete delimiter-terminated parts).'),
+    text=('Proof (Coq, 8 theorems, all closed under the global context): the whole request-body pipeline (BodyMixin._body, '
+          '_get_body_string, json, POST/forms/files, BaseRequest._raise with DefaultConfig.errors_map, the streaming multipart '
+          'parser, FieldStorage) is one total function coq/model/BodyPipeline.v:process in which every raising Python '
+          'operation is a ServerFault constructor unless the code routes it through _raise. C12_no_server_fault: for ALL json '
+          'oracles, configurations, CONTENT_TYPE strings (latin-1), framings, byte streams, fragmentation schedules and accessed '
+          'properties no ServerFault is produced; every Client response is a 4xx (C12_client_codes_4xx); the read loops '
+          'terminate (C12_terminates); the streaming parser\'s section list alternates and has non-negative offsets for ANY '
+          'input (C12_markup_shape); every delivered field is the complete content of a data section the parser reported '
+          '(C12_delivered_fields_complete), which on every prefix of a well-formed body ends at a delimiter '
+          '(C12_truncated_never_delivered, via C06). The model is tied to /repo on every run by a differential correspondence '
+          'through Ombott.__call__ on a malformed-body stream and an independent oracle (no 5xx, no traceback on wsgi.errors, '
+          'no hang, delivered fields are delimiter-terminated parts).'),
     note=('Trusted: Coq kernel + vm_compute; extraction; the Python harness; json.loads (raises only ValueError/RecursionError); '
-          'parse_qsl total (C18); regex scanners (texts pinned); stream model. CONTENT_LENGTH is an integer (a non-numeric '
-          'header value is outside the property).'),
+          'parse_qsl total (C18); regex scanners (texts pinned); stream model. Not proved: that data sections of the streaming '
+          'parser end at a delimiter for bodies outside wf_prefix (oracle + correspondence only). CONTENT_LENGTH is an integer: '
+          'a non-numeric Content-Length header gives 500 (int() ValueError) and is outside the property.'),
     technique='Coq proof over an executable model of the pipeline + model/implementation correspondence on malformed inputs',
     design_ref='DESIGN.md section 4, C12',
 )
